@@ -61,7 +61,14 @@ def run_case(c, femio, meshio, work):
     for v in c['variables']:
         data = np.array([fl(x) for x in v['flat']], dtype=float).reshape(v['shape']).astype(
             DT[v.get('dtype', 'float64')])
-        fd.nodal_data.update_data(np.array(v['ids'], dtype=np.int64), {v['name']: data})
+        vids = np.array(v['ids'], dtype=np.int64)
+        if v.get('attr_name') is None:
+            fd.nodal_data.update_data(vids, {v['name']: data})
+        elif v.get('attr_how') == 'set_attribute_data':
+            # documented option: the attribute's own name differs from the key it is stored under
+            fd.nodal_data.set_attribute_data(v['name'], data, name=v['attr_name'])
+        else:
+            fd.nodal_data[v['name']] = femio.FEMAttribute(v['attr_name'], vids, data)
     # history: values of existing variables replaced through the public API
     for ow in c.get('overwrites', []):
         data = np.array([fl(x) for x in ow['flat']], dtype=float).reshape(ow['shape'])
@@ -121,6 +128,10 @@ def run_case(c, femio, meshio, work):
                 fd.nodal_data[ow['name']].data[...] = new      # attr.data[i] = v
             else:
                 fd.nodal_data.overwrite(ow['name'], new)
+        if th.get('nodes') == 'remove_useless':
+            # the node table changes in place (unreferenced nodes dropped, the rest re-ordered by
+            # ascending id) while the elements stay as they are
+            fd.remove_useless_nodes()
         r['second'] = export('_b')
     return r
 
